@@ -19,7 +19,7 @@ def levels(raw, N):
     key = key_of(raw)
     have = _CACHE.get(key)
     if have is not None and len(have) > N:
-        return have
+        return have[: N + 1]
     if is_classical(raw):
         lv = [set(l) for l in C.av_levels([tuple(q) for q in raw], N)]
     else:
